@@ -100,6 +100,11 @@ def postprocess_attributes(
         raise PolynomialConstructionError(
             f"expected exponents.ndim == 2; found {exponents.ndim}"
         )
+    if exponents.size and not numpy.all(numpy.mod(exponents, 1) == 0):
+        # the integer casts below would truncate them to another monomial
+        raise PolynomialConstructionError(
+            f"exponents have to be whole numbers; found {exponents}"
+        )
 
     coefficients_ = [numpy.asarray(coefficient) for coefficient in coefficients]
     if coefficients_ and len(exponents) != len(coefficients_):
